@@ -111,3 +111,14 @@ CLAIMS["C19"] = {"engine": "explorer", "level": "exploration",
                  "text": "one real inscription per class of the decision table (content type, encoding, body, delegate target incl. hidden/missing/delegating, hidden by config, reinscribed sat) is served by the real explorer; every content route x Accept-Encoding x csp-origin x decompress configuration is requested and TLC evaluates the table: exact body source, content type, encoding negotiation (pass-through / decompress / 406), immutable caching except for negative sat indices, the content CSP restricted to self or the configured origin plus recursive paths, a CSP header on every response incl. errors, and hidden content never served directly or through a delegate (this found the hidden-delegate leak, now repaired)",
                  "note": "trusted: TLC, the harness HTTP client (no automatic decompression); bodies are tiny so the transport compression layer stays out of the way; invalid content-encoding bytes are left unconstrained",
                  "technique": "TLA+ decision table (ContentTrace) + TLC trace validation of real HTTP responses"}
+
+ENGINES.append({"name": "store-trace", "path": "spec/StoreTrace.tla", "serves_properties": ["C28", "C35"],
+                "kind_free_text": "TLC validation of (written, read) pairs recorded from the real storage encoders/decoders and properties encoders/decoders through guarded wrappers; the packed sat-range layout and the decompression bound are defined in TLA+ with BigNat"})
+CLAIMS["C35"] = {"engine": "store-trace", "level": "exploration",
+                 "text": "every persisted encoding is exercised through the real store/load code on boundary and random values (see rule) and TLC requires read = written; the 11-byte packed sat range is additionally compared with its definition (51-bit base | 33-bit length, little endian) computed with BigNat; a merge of two pseudo-output entries must be the concatenation of both range lists and both inscription lists",
+                 "note": "trusted: TLC, the harness, the guarded wrappers (thin calls into the crate-private store/load/merged functions); equality of values is judged by TLC on the logged projections; bit layouts other than the sat range are exercised, not specified",
+                 "technique": "TLC trace validation of recorded (written, read) pairs (StoreTrace); packed range layout defined in TLA+"}
+CLAIMS["C28"] = {"engine": "store-trace", "level": "exploration",
+                 "text": "properties values are encoded by the real inline and packed encoders and through Inscription::new (with/without compression) and decoded by the real decoder; TLC requires the decoded value to equal the original in every encoding; brotli-compressed property fields with expansion ratios around 30:1 and sizes around 4,000,000 bytes must be refused beyond min(30 x len, 4,000,000) and accepted within it; arbitrary bytes never panic",
+                 "note": "trusted: TLC, the harness, minicbor/brotli byte syntax (exercised, not specified); the decompression bound is observed through a guarded length hook",
+                 "technique": "TLC trace validation of recorded encode/decode pairs and decompression outcomes (StoreTrace)"}
